@@ -100,8 +100,16 @@ func (m *vxKV) BeginTx(ctx context.Context) (Transaction, error) {
 	return t, nil
 }
 func (m *vxKV) BeginReadOnlyTx(ctx context.Context) (Transaction, error) { return m.BeginTx(ctx) }
+// one scheduling point is modelled: right after the storage commit of a transaction (and before the cache layer's
+// own post-commit step) another client's write may land
+var vxAfterStorageCommit func()
+
 func (t *vxTx) Commit(ctx context.Context) error {
 	t.parent.keys, t.parent.vals = t.keys, t.vals
+	if f := vxAfterStorageCommit; f != nil {
+		vxAfterStorageCommit = nil
+		f()
+	}
 	return nil
 }
 func (t *vxTx) Rollback(ctx context.Context) error { return nil }
@@ -187,4 +195,51 @@ func VxCacheCoherence() {
 		e, err = kv.Get(ctx, vxKeys[k])
 		vxAssert("backend holds the last committed value", err == nil && vxSame(e, spec.v[k]))
 	}
+}
+
+
+// a cache transaction commits while another client writes the same key: the other write lands after the storage
+// commit but before the cache's post-commit step (the one interleaving the cache code itself warns about). Serial
+// order = transaction, then the other write; afterwards reads through the cache must return the other write's value.
+func VxCacheCommitRacingWrite() {
+	ctx := context.Background()
+	kv := &vxKV{}
+	c := newCache(kv, 0, vxLogger{}, vxSink{}).(*transactionalCache)
+	c.SetEnabled(true)
+	k := vxChoose("key", 2)
+	key := vxKeys[k]
+	if vxBool("key initially present (and cached)") {
+		vxAssert("initial put", c.Put(ctx, &Entry{Key: key, Value: []byte{vxByte("initial")}}) == nil)
+	}
+	tx, err := c.BeginTx(ctx)
+	vxAssert("begin ok", err == nil)
+	if vxBool("transaction reads the key first") {
+		_, gerr := tx.Get(ctx, key)
+		vxAssert("txn get ok", gerr == nil)
+	}
+	txDel := vxBool("transaction deletes instead of writing")
+	if txDel {
+		vxAssert("txn delete ok", tx.Delete(ctx, key) == nil)
+	} else {
+		vxAssert("txn put ok", tx.Put(ctx, &Entry{Key: key, Value: []byte{vxByte("txn value")}}) == nil)
+	}
+	var want []byte
+	otherDel := vxBool("the other client deletes instead of writing")
+	ov := vxByte("other value")
+	vxAfterStorageCommit = func() {
+		if otherDel {
+			vxAssert("other delete ok", c.Delete(ctx, key) == nil)
+		} else {
+			vxAssert("other put ok", c.Put(ctx, &Entry{Key: key, Value: []byte{ov}}) == nil)
+		}
+	}
+	if !otherDel {
+		want = []byte{ov}
+	}
+	vxAssert("commit ok", tx.Commit(ctx) == nil)
+	vxReach("cache: commit raced by another write")
+	e, gerr := kv.Get(ctx, key)
+	vxAssert("storage holds the later write", gerr == nil && vxSame(e, want))
+	e, gerr = c.Get(ctx, key)
+	vxAssert("reads through the cache return the later write, not the transaction's superseded value", gerr == nil && vxSame(e, want))
 }
